@@ -50,6 +50,7 @@ class Run:
         self.pushed_fn = False
         self.pushed_blk = False
         self.checked = {}              # local name -> 'F' | 'B' (index proven in range)
+        self.pushes = {}               # module container path -> number of pushes on this path
         self.depth = depth
         self.trace = []
 
@@ -75,7 +76,21 @@ class Run:
                 if s[3] is None:
                     continue
                 v = self.value(s[3])
-                self.bind(s[1], v)
+                if s[4] is not None:
+                    # let PAT = EXPR else { diverge };
+                    saved = dict(self.locals)
+                    m = self.pat_facts(s[1], v)
+                    if m is None:
+                        self.locals = saved
+                        m = self.choose(2, "let-else") == 1
+                        if m:
+                            self.bind_opaque(s[1])
+                    if not m:
+                        self.locals = saved
+                        self.value(s[4])
+                        raise Anchor("builder: the else branch of a let-else does not diverge")
+                else:
+                    self.bind(s[1], v)
                 r = None
             elif s[0] == "expr":
                 r = self.value(s[1])
@@ -281,7 +296,16 @@ class Run:
                 new = None
             elif isinstance(v, tuple) and v[0] == "some":
                 x = v[1]
-                if isinstance(x, tuple) and x[0] == "lenminus":
+                if isinstance(x, tuple) and x[0] == "len" and len(x) == 3:
+                    # index = length read before exactly one push on the same container
+                    one_more = self.pushes.get(x[1], 0) == x[2] + 1
+                    if which == "F" and x[1].endswith("module.functions") and one_more:
+                        new = "valid"
+                    elif which == "B" and x[1].endswith(".blocks") and one_more:
+                        new = "valid"
+                    else:
+                        new = "stale"
+                elif isinstance(x, tuple) and x[0] == "lenminus":
                     if which == "F" and x[1].endswith("module.functions") and self.pushed_fn:
                         new = "valid"
                     elif which == "B" and x[1].endswith(".blocks") and self.pushed_blk:
@@ -368,8 +392,22 @@ class Run:
                 if v[2] is None:
                     raise Panic("%s on empty selection" % m)
                 return ("idx", v[1], v[2])
+            if m in ("ok_or", "ok_or_else") and len(argn) == 1:
+                if v[2] is None:
+                    a = argn[0]
+                    if a[0] == "closure":
+                        a = a[2]
+                    nm = (path_of(a) or (path_of(a[1]) if a[0] == "call" else None) or "?").split("::")[-1]
+                    return ("result", "err", nm)
+                return ("result", "ok", ("idx", v[1], v[2]))
             if m == "take":
-                raise Anchor("builder: take() on the selection")
+                if v[1] == "F":
+                    self.F = None
+                    if self.B is not None:
+                        self.B = "stale"
+                else:
+                    self.B = None
+                return v
             raise Anchor("builder: method %s on the selection" % m)
         r = self.value(recv)
         args = [self.value(a) for a in argn]
@@ -377,7 +415,7 @@ class Run:
             return OPAQUE
         if isinstance(r, tuple) and r[0] == "mod":
             if m == "len" and not args:
-                return ("len", r[1])
+                return ("len", r[1], self.pushes.get(r[1], 0))
             if m in self.MUT:
                 if m == "pop":
                     # pop().ok_or(..) handled by the caller via ('popped')
@@ -388,6 +426,8 @@ class Run:
                     self.header_mutated = True
                 else:
                     self.mutated = True
+                    if m == "push":
+                        self.pushes[r[1]] = self.pushes.get(r[1], 0) + 1
                     if r[1].endswith("module.functions") and m == "push":
                         self.pushed_fn = True
                     if r[1].endswith(".blocks") and m == "push":
@@ -447,6 +487,7 @@ class Run:
         sub.di = self.di
         sub.widths = self.widths
         sub.trace = self.trace
+        sub.pushes = self.pushes
         try:
             r = sub.block(callee["body"])
         except Ret as x:
